@@ -3050,7 +3050,10 @@ static int bufr_get_ieeefp_compressed
       }
    if (errcode < 0) return errcode;
 
-   if (subset_from > 1)
+/*
+ * a column whose value is the same in every subset (NBINC=0) has nothing to skip
+ */
+   if ((subset_from > 1)&&(nbinc > 0))
       bufr_skip_bits( msg, nbits*(subset_from-1), &errcode );
 
    for (i = 0; i < count ; i++)
@@ -3081,7 +3084,7 @@ static int bufr_get_ieeefp_compressed
          }
       }
 
-   if (subset_from > 0)
+   if ((subset_from > 0)&&(nbinc > 0))
        bufr_skip_bits( msg, nbits*(nbsubset-subset_to), &errcode );
 
    return 1;
